@@ -6,7 +6,8 @@ import PynguinModel.Model.Mutants
 case  = {"tree": T, "ops": [{"prone": b, "vis": [[path, [[name, T], …]], …]}, …],
          "mode": "hist" | "sel" | "hom", "cap": n | -1, "draws": [[i, …], …],
          "groups": [[[op, idx], …], …], "stop": k | -1}
-T     = [label, [T, …]]
+T     = [label, [T, …]]  (a node; the kids are its child slots in field order, list entries by position)
+      | [v]              (a non-node entry of a child list: `None` placeholder / identifier, v = interned repr)
 out   = {"count": n, "yields": [[[[op, path, name], …], hash], …], "intact": b, "final": hash,
          "counts": […], "err": null | "…"}
 `stop = k ≥ 0`: the consumer takes k mutants and then drops the generator (which closes it). -/
@@ -14,7 +15,8 @@ open Lean PynguinModel.Mutants
 
 partial def treeOfJson (j : Json) : Except String Tree := do
   let a ← j.getArr?
-  if a.size != 2 then throw "tree: expected [label, kids]"
+  if a.size == 1 then return .hole (← a[0]!.getNat?)
+  if a.size != 2 then throw "tree: expected [label, kids] or [placeholder]"
   let l ← a[0]!.getNat?
   let ks ← a[1]!.getArr?
   let ks' ← ks.toList.mapM treeOfJson
